@@ -205,10 +205,32 @@ def run_impl(driver, case):
     """-> {"regs": [snapshot...], "err": None | [step, exception class]}"""
     env = [driver.make(t) for t in case["inputs"]]
     err = None
+    fresh = []
     for k, ins in enumerate(case["prog"]):
         try:
+            before = len(env)
             env.extend(driver.exec(ins, env))
+            if ins[0] in FRESH_OPS:
+                fresh.extend(range(before, len(env)))
         except Exception as e:  # any exception is the one class "raises"
             err = [k, type(e).__name__]
             break
-    return {"regs": [driver.snap(x) for x in env], "err": err}
+    regs = [driver.snap(x) for x in env]
+    out = {"regs": regs, "err": err}
+    # aftermath (PyTorch; TensorFlow tensors are immutable): the public in-place methods are applied to the program's INPUTS;
+    # every register that an operation COMPUTED (arithmetic, reductions, zero-fill, matrix product, concatenation, statistics,
+    # element-wise functions) is a value of its own and must still hold what it held.  Registers produced by indexing /
+    # reshaping / permuting may be views of their operand (PyTorch's own convention) and are not looked at.
+    if getattr(driver, "name", "") == "torch" and fresh:
+        try:
+            for x in env[:len(case["inputs"])]:
+                x.pow_(2.0)
+                x.tensor.add_(1.0)
+                x.fix_nan()
+        except Exception:
+            pass
+        out["alias"] = [i for i in fresh if driver.snap(env[i]) != regs[i]]
+    return out
+
+
+FRESH_OPS = ("arith", "divm", "sum", "cat", "stack", "matmul", "zerofill", "unary", "mean", "var", "std")
